@@ -244,7 +244,12 @@ class World:
         if k in ("union", "inter"):
             return [k, [self.tyj(a) for a in d[1]]]
         if k in ("exactly", "strict", "hasm", "pred"):
-            return d
+            # two evaluations of Exactly[A] / StrictSubclass[A] / HasMethod[m] / class_check(fn) are EQUAL types
+            # (since the `fix:` for finding D22): the model's identity tag is the same for all of them; a
+            # Deferred[...] reference stays one object per reference
+            if k == "pred" and d[2] >= NPRED:
+                return d
+            return [k, 0, d[2]]
         if k == "lit":
             return ["lit", [eq_key(i) for i in d[1]], self.tyj(d[2])]
         if k == "prod":
